@@ -1272,7 +1272,9 @@ def check_c09(res, ctx):
 # ----------------------------------------------------------------------------- C13 write faults
 
 def status_class(x):
-    return re.sub(r"=(-\d+)", lambda m: "=ERR", x)
+    """statuses by class: OK stays, every error code becomes ERR, end-of-table stays"""
+    x = x.replace("-1000", "TABLEEND")
+    return re.sub(r"(?<=[=,])-\d+", "ERR", x)
 
 
 def check_c13(res, ctx):
